@@ -247,6 +247,11 @@ def weave(job, cpath, info, outdir, witness_mode=False):
                 raise Undecided('two stub patterns match %s' % info['functions'][cn]['pretty'])
             if witness_mode and info['functions'][cn].get('kind') == 'lifted':
                 continue      # witness search: run the real callee body instead of its contract
+            if info['functions'][cn].get('kind') == 'lifted' and info['functions'][cn].get('may_throw') is False \
+                    and not any('vf_exc.pending == 0' in x.text for x in c.clauses if x.kind == 'ensures'):
+                # the lowering found that this instantiation cannot throw (and emits no exception check after
+                # calls to it): its contract must not be able to raise either
+                c = Contract(*(list(c.clauses) + [E('vf_exc.pending == __CPROVER_old(vf_exc.pending)', 'stub-cannot-raise')]))
             contracts[cn] = c
             replaced.append(cn)
     # what lies behind a replaced call is not part of this proof
